@@ -66,6 +66,7 @@ type Timer struct {
 	id       int
 	periodic bool
 	period   Duration
+	d        Duration
 }
 
 type Event struct {
@@ -84,6 +85,12 @@ var (
 	Events chan Event
 	// AutoSleep makes Sleep/After advance the clock by themselves.
 	AutoSleep = true
+	// OnTimer, when set, is called synchronously (on the goroutine of the code
+	// under test) for every timer that is created or re-armed, After channels
+	// included; the harness decides there what happens to it (t.Elapse(), ending
+	// the caller's context, nothing yet). With OnTimer set After does not
+	// fire by itself.
+	OnTimer func(t *Timer)
 )
 
 func emit(e Event) {
@@ -170,12 +177,29 @@ func newTimer(d Duration, fn func()) *Timer {
 	mu.Lock()
 	c := make(chan Time, 1)
 	nextID++
-	t := &Timer{C: c, c: c, fn: fn, deadline: now.Add(d), active: true, id: nextID}
+	t := &Timer{C: c, c: c, fn: fn, deadline: now.Add(d), active: true, id: nextID, d: d}
 	timers = append(timers, t)
 	mu.Unlock()
 	emit(Event{Kind: "new", Timer: t, D: d})
+	if OnTimer != nil {
+		OnTimer(t)
+	}
 	return t
 }
+
+// Elapse moves the virtual clock to the timer's deadline (if it is still
+// ahead) and fires it.
+func (t *Timer) Elapse() bool {
+	mu.Lock()
+	if now.Before(t.deadline) {
+		now = t.deadline
+	}
+	mu.Unlock()
+	return t.Fire()
+}
+
+// D reports the duration the timer was last armed with.
+func (t *Timer) D() Duration { mu.Lock(); defer mu.Unlock(); return t.d }
 
 func NewTimer(d Duration) *Timer { return newTimer(d, nil) }
 
@@ -185,7 +209,7 @@ func AfterFunc(d Duration, f func()) *Timer { return newTimer(d, f) }
 // clock is advanced and the channel is ready at once.
 func After(d Duration) <-chan Time {
 	t := newTimer(d, nil)
-	if AutoSleep {
+	if AutoSleep && OnTimer == nil {
 		if d > 0 {
 			Advance(d)
 		}
@@ -208,8 +232,12 @@ func (t *Timer) Reset(d Duration) bool {
 	was := t.active
 	t.active = true
 	t.deadline = now.Add(d)
+	t.d = d
 	mu.Unlock()
 	emit(Event{Kind: "reset", Timer: t, D: d})
+	if OnTimer != nil {
+		OnTimer(t)
+	}
 	return was
 }
 
